@@ -158,7 +158,7 @@ var specDeadline = pbt.Register(&pbt.Spec[DCase]{
 			DUs: rapid.SampledFrom([]int{60, 150, 400}).Draw(t, "d"), Rounds: rapid.SampledFrom([]int{2000, 8000}).Draw(t, "rounds"), Procs: rapid.SampledFrom([]int{2, 4, 16}).Draw(t, "procs"),
 			Pairs: rapid.SampledFrom([]int{1, 16, 64, 64}).Draw(t, "pairs")}
 	},
-	Run: RunDeadline, Quick: 12, Thorough: 400, Crashy: true, Retries: 20, CaseCPU: 120e9,
+	Run: RunDeadline, Quick: 12, Thorough: 100, Crashy: true, Retries: 20, CaseCPU: 120e9,
 })
 
 func TestC19Deadline(t *testing.T) { pbt.Check(t, specDeadline) }
@@ -169,7 +169,7 @@ func TestC19Deadline(t *testing.T) { pbt.Check(t, specDeadline) }
 var specDeadlineAsync = pbt.Register(&pbt.Spec[DCase]{
 	Property: "C19", Name: "C19.deadlineasync",
 	Rule: "C19.deadline in a process running with GODEBUG=asynctimerchan=1 (pre-Go-1.23 timer channels: a timer fires into its buffered channel even if nobody receives; what a main module with an older go line gets)",
-	Gen:  specDeadline.Gen, Run: RunDeadline, Quick: 12, Thorough: 400, Crashy: true, Retries: 20, CaseCPU: 120e9,
+	Gen:  specDeadline.Gen, Run: RunDeadline, Quick: 12, Thorough: 100, Crashy: true, Retries: 20, CaseCPU: 120e9,
 })
 
 func TestC19DeadlineAsync(t *testing.T) { pbt.Check(t, specDeadlineAsync) }
